@@ -45,6 +45,8 @@ def parseOpTable (s : String) : OpTable :=
     match part.splitOn ":" with
     | ["b", tx, lv, as, nm] => { t with bin := t.bin ++ [{ text := unhexString tx, level := intOf' lv, right := as == "R", rule := nm }] }
     | ["u", tx, lv, nm] => { t with un := t.un ++ [{ text := unhexString tx, level := intOf' lv, rule := nm }] }
+    | ["u", tx, lv, nm, an] => { t with un := t.un ++ [{ text := unhexString tx, level := intOf' lv, rule := nm, annotated := an != "N" }] }
+    | ["p", tx, lv, nm, an] => { t with post := t.post ++ [{ text := unhexString tx, level := intOf' lv, rule := nm, annotated := an != "N" }] }
     | _ => t) {}
 
 def reorder (g : Grammar) (order : List String) : Grammar :=
@@ -61,7 +63,9 @@ def opTokOf (t : OpTable) (name : String) (named : Bool) : Option OpTok :=
     | some k => some (.bin k)
     | none => match t.un.findIdx? (fun u => u.text == name) with
       | some k => some (.un k)
-      | none => none
+      | none => match t.post.findIdx? (fun u => u.text == name) with
+        | some k => some (.post k)
+        | none => none
 
 /-- cells in which a repetition-flagged SHIFT (skipped by the runtime) sits next to a REDUCE that is
 not the repeat rule's own binary recursion `aux → aux aux` (finding C03-repetition-conflict) -/
